@@ -1,5 +1,185 @@
-import Astria.RelayerCrash.Model
-/- Theorems for area `crash` (stub). -/
+import Astria.RelayerCrash.Invariant
+/-
+  Main theorems of the crash/restart model (C11): for every sequence of benign environment
+  actions — any number of crashes at any await point, any outcome of any RPC, any block
+  arrival pattern, temp files left in any state —
+  * the state file is always a complete state that `State::read` accepts, and the process never
+    ends by itself;
+  * whatever sequencer height the file records as submitted is confirmed on Celestia, together
+    with every height from the first relayed one up to it;
+  * the heights confirmed on Celestia have no gap.
+  The same statements for the decidable spec functions the driver's monitors evaluate.
+-/
 namespace Astria.RelayerCrash
+
+/-! ### `base` never changes -/
+
+theorem settle_base (w : World) : w.settle.base = w.base := by
+  unfold World.settle; split <;> rfl
+
+theorem rename_base (w : World) : w.rename.base = w.base := by
+  unfold World.rename; split <;> rfl
+
+theorem stepFs_base (w : World) : (stepFs w).base = w.base := by
+  unfold stepFs
+  repeat' split
+  all_goals first | rfl | simp only [settle_base, rename_base]
+
+theorem stepFetch_base (w : World) : (stepFetch w).base = w.base := by
+  unfold stepFetch
+  repeat' split
+  all_goals first | rfl | simp only [settle_base]
+
+theorem stepBcast_base (w : World) (o : BcastOutcome) : (stepBcast w o).base = w.base := by
+  unfold stepBcast
+  repeat' split
+  all_goals first | rfl | simp only [settle_base]
+
+theorem stepGetTx_base (w : World) (m : GetTxMode) : (stepGetTx w m).base = w.base := by
+  unfold stepGetTx
+  repeat' split
+  all_goals rfl
+
+theorem stepGiveup_base (w : World) : (stepGiveup w).base = w.base := by
+  unfold stepGiveup
+  repeat' split
+  all_goals first | rfl | simp only [settle_base]
+
+theorem stepWait_base (w : World) : (stepWait w).base = w.base := by
+  unfold stepWait
+  split
+  · rfl
+  · split
+    · rfl
+    · simp only []
+      repeat' split
+      all_goals simp only [settle_base]
+
+theorem step_base (w : World) (a : Action) : (step w a).base = w.base := by
+  cases a with
+  | fs => exact stepFs_base w
+  | fetch => exact stepFetch_base w
+  | bcast o => exact stepBcast_base w o
+  | gettx m => exact stepGetTx_base w m
+  | giveup => exact stepGiveup_base w
+  | wait => exact stepWait_base w
+  | restart => simp only [step]; split <;> rfl
+  | crash => rfl
+  | bump n => rfl
+  | «include» t => simp only [step]; split <;> rfl
+  | drop t => simp only [step]; split <;> rfl
+  | corruptTmp c => simp only [step]; split <;> rfl
+  | tamperFile c => simp only [step]; split <;> rfl
+
+theorem run_base (w : World) (acts : List Action) : (run w acts).base = w.base := by
+  induction acts generalizing w with
+  | nil => rfl
+  | cons a as ih => simp only [run, List.foldl_cons]; exact (ih (step w a)).trans (step_base w a)
+
+/-! ### the three parts of C11 on the model -/
+
+def Benign (acts : List Action) : Prop := ∀ a ∈ acts, a.benign = true
+
+instance (acts : List Action) : Decidable (Benign acts) :=
+  inferInstanceAs (Decidable (∀ a ∈ acts, a.benign = true))
+
+theorem reachable_inv (base ch : Nat) (acts : List Action) (hb : Benign acts) :
+    Inv (run (init base ch) acts) :=
+  inv_run (inv_init base ch) acts hb
+
+/-- the state file always holds a complete state that `State::read` accepts -/
+theorem file_readable (base ch : Nat) (acts : List Action) (hb : Benign acts) :
+    ∃ st, (run (init base ch) acts).file = some (.ok st) ∧
+      readState (run (init base ch) acts).file = .ok st := by
+  obtain ⟨st, hf, hg⟩ := (reachable_inv base ch acts hb).file
+  exact ⟨st, hf, hf ▸ readState_good hg⟩
+
+/-- the process never ends by itself (unreadable state file, failed submitter task) -/
+theorem never_exits (base ch : Nat) (acts : List Action) (hb : Benign acts) :
+    (run (init base ch) acts).exits = 0 :=
+  (reachable_inv base ch acts hb).exits
+
+/-- a height the state file records as submitted, and every height from the first relayed one
+    up to it, is confirmed on Celestia -/
+theorem recorded_confirmed (base ch : Nat) (acts : List Action) (hb : Benign acts) (st : FileSt)
+    (hf : (run (init base ch) acts).file = some (.ok st)) (k : Nat) (h1 : base < k)
+    (h2 : k ≤ st.last) : Covered (run (init base ch) acts) k := by
+  obtain ⟨st', hf', hg⟩ := (reachable_inv base ch acts hb).file
+  rw [hf] at hf'
+  cases hf'
+  exact hg.cov_last k (by rw [run_base]; exact h1) h2
+
+/-- the heights confirmed on Celestia lie above the first relayed one and have no gap -/
+theorem no_gap (base ch : Nat) (acts : List Action) (hb : Benign acts) (h : Nat)
+    (hc : Covered (run (init base ch) acts) h) :
+    base < h ∧ ∀ k, base < k → k ≤ h → Covered (run (init base ch) acts) k := by
+  have hinv := reachable_inv base ch acts hb
+  have hbase := run_base (init base ch) acts
+  obtain ⟨e, he, tx, htx, hid, hk⟩ := hc
+  obtain ⟨h1, h2⟩ := hinv.attach tx htx h hk
+  rw [hbase] at h1
+  refine ⟨h1, fun k hk1 hk2 => ?_⟩
+  rcases h2 k (by rw [hbase]; exact hk1) hk2 with hc | hm
+  · exact hc
+  · exact ⟨e, he, tx, htx, hid, hm⟩
+
+/-- transactions are numbered uniquely, so "a transaction on chain carries `k`" is about the
+    very transaction that was broadcast under that number -/
+theorem tx_ids_unique (base ch : Nat) (acts : List Action) (hb : Benign acts) :
+    ((run (init base ch) acts).txs.map (·.id)).Nodup := by
+  rw [(reachable_inv base ch acts hb).ids]
+  exact List.nodup_range'
+
+/-! ### the same in terms of the decidable spec the monitors evaluate -/
+
+/-- the chain as the harness reports it: for every entry the heights its transaction carries -/
+def World.chainHeights (w : World) : List (List Nat) :=
+  w.chain.map (fun e => (w.txs.filter (fun tx => tx.id = e.2)).flatMap (·.hs))
+
+theorem mem_confirmedHeights (w : World) (k : Nat) :
+    k ∈ confirmedHeights w.chainHeights ↔ Covered w k := by
+  simp only [confirmedHeights, World.chainHeights, List.mem_flatten, List.mem_map, Covered]
+  constructor
+  · rintro ⟨l, ⟨e, he, rfl⟩, hk⟩
+    simp only [List.mem_flatMap, List.mem_filter, decide_eq_true_eq] at hk
+    obtain ⟨tx, ⟨htx, hid⟩, hkk⟩ := hk
+    exact ⟨e, he, tx, htx, hid, hkk⟩
+  · rintro ⟨e, he, tx, htx, hid, hk⟩
+    refine ⟨_, ⟨e, he, rfl⟩, ?_⟩
+    simp only [List.mem_flatMap, List.mem_filter, decide_eq_true_eq]
+    exact ⟨tx, ⟨htx, hid⟩, hk⟩
+
+theorem coveredUpTo_iff (base : Nat) (hs : List Nat) (n : Nat) :
+    coveredUpTo base hs n = true ↔ ∀ k, base < k → k ≤ n → k ∈ hs := by
+  simp only [coveredUpTo, List.all_eq_true, List.mem_range, List.contains_iff_mem]
+  constructor
+  · intro h k h1 h2
+    have := h (k - base - 1) (by omega)
+    have e : base + 1 + (k - base - 1) = k := by omega
+    rwa [e] at this
+  · intro h i hi
+    exact h _ (by omega) (by omega)
+
+theorem gapFree_iff (base : Nat) (hs : List Nat) :
+    gapFree base hs = true ↔ ∀ h ∈ hs, base < h ∧ ∀ k, base < k → k ≤ h → k ∈ hs := by
+  simp only [gapFree, List.all_eq_true, Bool.and_eq_true, decide_eq_true_eq, coveredUpTo_iff]
+
+/-- the monitors' spec holds in every reachable state of the model -/
+theorem spec_holds (base ch : Nat) (acts : List Action) (hb : Benign acts) :
+    let w := run (init base ch) acts
+    gapFree base (confirmedHeights w.chainHeights) = true ∧
+    ∃ st, w.file = some (.ok st) ∧ readState w.file = .ok st ∧
+      coveredUpTo base (confirmedHeights w.chainHeights) st.last = true := by
+  intro w
+  refine ⟨?_, ?_⟩
+  · rw [gapFree_iff]
+    intro h hh
+    obtain ⟨h1, h2⟩ := no_gap base ch acts hb h ((mem_confirmedHeights w h).1 hh)
+    exact ⟨h1, fun k a b => (mem_confirmedHeights w k).2 (h2 k a b)⟩
+  · obtain ⟨st, hf, hr⟩ := file_readable base ch acts hb
+    refine ⟨st, hf, hr, ?_⟩
+    rw [coveredUpTo_iff]
+    intro k h1 h2
+    exact (mem_confirmedHeights w k).2 (recorded_confirmed base ch acts hb st hf k h1 h2)
 
 end Astria.RelayerCrash
